@@ -13,14 +13,14 @@ import (
 // Encoder-side finding ids (see /verif/known_findings.json).
 const (
 	EncDirectAggregate   = "KF-ENC-pointer-shaped-aggregate"
-	EncMapKeyStringText  = "KF-ENC-mapkey-string-textmarshaler"
+	EncMapKeyStringText  = "FX-ENC-mapkey-string-textmarshaler" // fixed: the selector can never be active again
 	EncOmitemptyMarsh    = "KF-ENC-omitempty-on-marshaler"
 	EncMapKindMarsh      = "KF-ENC-map-kind-marshaler"
-	EncNilPtrValueText   = "KF-ENC-nil-pointer-to-textmarshaler"
+	EncNilPtrValueText   = "FX-ENC-nil-pointer-to-textmarshaler" // fixed: the selector can never be active again
 	EncPtrRecvNonAddr    = "KF-ENC-pointer-receiver-on-unaddressable"
 	EncMapOrderEscaped   = "KF-ENC-map-order-by-escaped-key"
-	EncStringTagOnOthers = "KF-ENC-string-tag-on-unsupported-kind"
-	EncOmitemptyArray0   = "KF-ENC-omitempty-zero-length-array"
+	EncStringTagOnOthers = "FX-ENC-string-tag-on-unsupported-kind" // fixed: the selector can never be active again
+	EncOmitemptyArray0   = "FX-ENC-omitempty-zero-length-array" // fixed: the selector can never be active again
 	EncOmitemptyPtrPtr   = "KF-ENC-omitempty-pointer-to-nil-pointer"
 	EncEmbeddedConflict  = "KF-ENC-embedded-name-conflict"
 	EncNilPtrFirstMarsh  = "KF-ENC-nil-pointer-to-struct-starting-with-pointer-receiver-marshaler"
